@@ -336,13 +336,25 @@ def _in_network(ctx, vip):
                 loop = K.enclosing_for(graph, site, arg)
                 if loop is None:
                     # the candidate is a conversion of the loop variable
-                    # kept in a local of its own: candidate = str(host)
-                    rarg = K.rexpr(func, sub.args[1])
-                    if isinstance(rarg, ast.Call) and \
-                            K.callee_text(rarg) == 'str' and \
-                            len(rarg.args) == 1 and \
-                            isinstance(rarg.args[0], ast.Name):
-                        loop = K.enclosing_for(graph, site, rarg.args[0].id)
+                    # kept in a local of its own: candidate = str(host),
+                    # bound in the iteration before the call
+                    for cand in graph.nodes:
+                        if cand.kind != 'stmt' or not isinstance(
+                                cand.ast, ast.Assign) or \
+                                N.txt(cand.ast.targets[0]) != arg:
+                            continue
+                        val = cand.ast.value
+                        if isinstance(val, ast.Call) and \
+                                K.callee_text(val) == 'str' and \
+                                len(val.args) == 1 and \
+                                isinstance(val.args[0], ast.Name):
+                            outer = K.enclosing_for(graph, site,
+                                                    val.args[0].id)
+                            if outer is not None and K.guarded_by(
+                                    graph, site,
+                                    lambda e, c=cand: e.src is c,
+                                    start=outer):
+                                loop = outer
                 drawn = loop is not None and \
                     'self._cidr.hosts()' in N.txt(loop.ast.iter)
                 checked = K.guarded_by(graph, site, lambda e, a=arg: any(
